@@ -88,6 +88,8 @@ def diff(a, b, digits=None, groups=True, ignore=()):
     for k in ("id", "name", "compartments", "notes", "annotation", "direction"):
         if k in ignore:
             continue
+        if k == "direction" and not any(r["obj"] for r in a["reactions"].values()) and not any(r["obj"] for r in b["reactions"].values()):
+            continue  # the direction of an empty objective is not observable in the FBA problem
         if a[k] != b[k]:
             out.append(f"model.{k}: {a[k]!r} -> {b[k]!r}")
     layers = ["reactions", "metabolites", "genes"] + (["groups"] if groups else [])
